@@ -53,6 +53,7 @@ type Engine struct {
 	staleLoops    []string
 	heapTypes     map[string]types.Type // heap name -> Go type of the objects / elements it holds
 	globalInvs    []*GlobalInv
+	fieldFuncs    map[string]string
 	globalInit    map[types.Object]globalInitExpr
 }
 
@@ -331,6 +332,12 @@ func (e *Engine) addContractFile(cf *ContractFile) error {
 	e.bindings = append(e.bindings, cf.Bindings...)
 	e.axioms = append(e.axioms, cf.Axioms...)
 	e.globalInvs = append(e.globalInvs, cf.GlobalInvs...)
+	for k, v := range cf.FieldFuncs {
+		if e.fieldFuncs == nil {
+			e.fieldFuncs = map[string]string{}
+		}
+		e.fieldFuncs[k] = v
+	}
 	return nil
 }
 
